@@ -429,6 +429,7 @@ fn session(ctx: &Ctx, out: &mut Outcome, run_seed: u64, r: &mut Rng) {
         allow_large: false,
         tail_ticks: r.range(0, 40),
         liveness: false,
+        flood: false,
         max_len: 12_000,
     };
     let mut mons: Vec<Box<dyn Monitor>> = vec![
